@@ -35,6 +35,7 @@ PARTLY_PROVED = {'bucklin': 'n_seats > 1 (only the one-seat evaluator is modelle
                  'tideman_alternative': 'n_seats > 1 (only the single-winner tier is modelled: C05)'}
 MULTIPLIERS = [2, 3, 7, 10 ** 6, 10 ** 25 + 7]
 SMALL_MULTIPLIERS = [2, 3, 7]
+BIG_MULTIPLIERS = [10 ** 25 + 7, 2 ** 70 + 1, 3 * 10 ** 30 + 11, 10 ** 25 + 7]     # directed boundary cases
 NAMES = Names(prefix='cand')
 REL_THRESHOLDS = {'rel_threshold_5pc': ('1/20', True), 'rel_threshold_third': ('1/3', False)}   # as built in families.py
 DIST_FAMILIES = ('ha_', 'lr_', 'qd_')
@@ -131,15 +132,28 @@ def _init_unproved():
 
 
 _init_unproved()
-REQUIRED_COUNTERS = (['score_fraction_counts', 'score_large_factor', 'scale', 'near_tie', 'equal_rational', 'beyond_2^53', 'modelled']
+REQUIRED_COUNTERS = (['score_fraction_counts', 'score_large_factor', 'scale', 'near_tie', 'equal_rational', 'beyond_2^53', 'modelled',
+                      'lr_equal_remainders', 'exact_half_or_quota']
                      + ['m:' + f for f in PROVED_FAMILIES])      # every proved family is also run through its Lean model
 RULE = ('every scale-free evaluator family of the quantifier (plurality, divisor methods, largest remainder with exact quotas, '
         'Condorcet methods, STV-Gregory with Hare quota, Bucklin/Oklahoma, positional, approval, score, majority judgment, STAR, '
         'relative thresholds) x generated profiles (2-5 candidates) x multipliers {2,3,7,10^6,10^25+7} (score family: {2,3,7}, '
-        'because its aggregation expands one element per vote); near-tie pairs (v,v+1) for v up to 10^30; equal rationals in '
-        'different representations. Non-trivial = the base outcome is not an error; distinct by canonical request.')
+        'because its aggregation expands one element per vote); directed boundary profiles: largest-remainder profiles whose '
+        'remainders are equal as rationals but come from different whole-quota counts (and totals that are exact multiples of the '
+        'quota), Bucklin/Oklahoma profiles with a first choice of exactly half of the voters and STV profiles with exactly the Hare '
+        'quota, at factors 10^25+7, 2^70+1, 3*10^30+11; one-seat runs of Bucklin/Benham/Tideman; near-tie pairs (v,v+1) for v up to '
+        '10^30; equal rationals in different representations. Every proved family is also evaluated by its Lean model on the SCALED '
+        'profile and compared with the implementation. Non-trivial = the base outcome is not an error; distinct by canonical request.')
 NOT_VERIFIED = ['returned numeric TYPES (int/Fraction/Decimal, never float) are a runtime fact monitored by the harness, not a theorem',
-                'families listed under unproved are decided by the oracle on the implementation only']
+                'families listed under unproved are decided by the oracle on the implementation only',
+                'score family: the theorems are for positive NATURAL factors (ballot counts are Python ints) and for min_count = 0, '
+                'truncation = 0, unscored_value not the builtin min (min_count and an integer truncation are absolute numbers of votes)',
+                'Condorcet families: the evaluator model runs on the pairwise dictionary the real converter produced (its insertion order '
+                'depends on frozenset iteration); the converter model is checked against it as a map on every case',
+                'order among equally valued winners listed individually (positional / approval / score / PAV / second-order Copeland) is '
+                'compared up to permutation inside runs of equal value (Python set iteration order)',
+                'Benham / Tideman / Bucklin: the Lean models are the one-seat evaluators (C05, C17); the score-family model expands one '
+                'element per vote like the code, so it is run on profiles of at most 5000 votes']
 
 
 def generate(rng, tier):
@@ -157,6 +171,39 @@ def generate(rng, tier):
             if k > 2 ** 53:
                 tags.append('beyond_2^53')
             yield {'op': 'scale', 'family': f.name, 'prof': prof, 'n': n, 'k': str(k), '_tags': tags}
+    # largest remainder: remainders that are EQUAL AS RATIONALS but come from different whole-quota counts (v = q*g + r with
+    # the same r and different g): a float quotient v/q separates them (4/3-1 != 7/3-2 in doubles), exact arithmetic ties them
+    offs = {'lr_hare': 0, 'lr_hagenbach_bischoff': 1, 'lr_imperiali': 2, 'qd_hare': 0}
+    for f in F:
+        if f.name in offs:
+            for t in range(10 if tier == 'quick' else 100):
+                q = rng.choice([3, 6, 7, 9, 11, 13])
+                r = rng.randint(0, q - 1)              # r = 0: totals that are exact multiples of the quota
+                g1, g2 = rng.sample(range(0, 4), 2)
+                a, b = q * g1 + r, q * g2 + r
+                n = rng.randint(max(g1 + g2 + 1, 2), g1 + g2 + 4)
+                rest = q * (n + offs[f.name]) - a - b          # total = q * (n + offset): the quota is exactly q
+                if rest < 0:
+                    continue
+                vals = [a, b] + ([rest] if rest > 0 else [])
+                k = MULTIPLIERS[t % len(MULTIPLIERS)]
+                yield {'op': 'scale', 'family': f.name, 'prof': [[i, str(v)] for i, v in enumerate(vals)], 'n': n, 'k': str(k),
+                       '_tags': ['scale', 'lr_equal_remainders'] + (['beyond_2^53'] if k > 2 ** 53 else [])}
+    # exactly half is not a majority, exactly the quota is the quota - at magnitudes where a float quota is off by 10^9:
+    # Bucklin/Oklahoma: the first choice of exactly half of the voters, everybody's second choice wins in round 2;
+    # STV-Gregory-Hare: a candidate holding exactly the Hare quota on first preferences
+    for f in F:
+        if f.name in ('bucklin', 'oklahoma', 'stv_gregory_hare'):
+            for t in range(8 if tier == 'quick' else 80):
+                h = rng.randint(2, 9)
+                x = rng.randint(1, h - 1)
+                k = BIG_MULTIPLIERS[t % len(BIG_MULTIPLIERS)]
+                if f.name == 'stv_gregory_hare':
+                    prof, n = [[[0], str(h)], [[1, 2], str(x)], [[2, 1], str(h - x)]], 2
+                else:
+                    prof, n = [[[0, 1], str(h)], [[2, 1], str(h - x)], [[1, 2], str(x)]], 1
+                yield {'op': 'scale', 'family': f.name, 'prof': prof, 'n': n, 'k': str(k),
+                       '_tags': ['scale', 'exact_half_or_quota', 'beyond_2^53']}
     # the one-seat evaluators whose Lean model is the single-winner rule: directed cases with n = 1
     for f in F:
         if f.name in ('bucklin', 'benham', 'tideman_alternative'):
@@ -362,10 +409,19 @@ def shrink_candidates(case):
         yield c
 
 
-TECHNIQUE = 'Lean 4 proofs of scale invariance for every positive rational factor (simulation of the loops, order-only dependence of get_n_best) + implementation oracle over all families and multipliers up to 10^25'
-LEVEL_TEXT = ('Scale invariance is proved in Lean for all positive RATIONAL factors and all inputs for plurality/get_n_best, the quota selector with exact '
-              'quotas and all divisor methods (by simulation of the highest-averages loop); near-tie separation and equal-rational ties are theorems over all '
-              'rationals. For the remaining scale-free families of the quantifier the statement is checked on the implementation for generated profiles x '
-              'multipliers up to 10^25+7 (listed as unproved in the evidence); returned numeric types are monitored (no float).')
-LEVEL_NOTE = ('Trusted: Lean kernel + standard axioms; the C09/C01 models tied to the code by correspondence; CPython int/Fraction exactness. Partial: families '
-              'without a Lean model yet are decided by the oracle only; numeric types are a runtime fact.')
+TECHNIQUE = ('Lean 4 proofs of scale invariance by simulation (state2 = k * state1 preserved by every step of every loop) for every positive '
+             'rational factor (natural factor for the score family), resting on the order-only dependence of get_n_best and on linearity of '
+             'the converters; the Lean model of every proved family evaluates the scaled profile and is compared with the implementation; '
+             'implementation oracle over all families and multipliers up to 3*10^30')
+LEVEL_TEXT = ('Scale invariance is a Lean theorem, for ALL inputs of the model and all positive rational factors, for: plurality/get_n_best, the '
+              'quota selector, all divisor methods, RelativeThreshold, QuotaDistributor and LargestRemainder with the homogeneous quotas (every '
+              'over-award policy, any previous gains and caps), the converters (linear maps) and hence positional rules and (satisfaction) '
+              'approval voting, every entry of condorcet.EVALUATORS on arbitrary pairwise dictionaries and composed with RankedToCondorcetVotes, '
+              'Condorcet winner / Smith / Schwartz sets, Benham, Tideman alternative (one seat), PAV (from any state of its coefficient cache), '
+              'SPAV, Bucklin (one seat), STV with Gregory transfers and a homogeneous quota (selector and distributor); for positive natural '
+              'factors: ScoreVoting sum/mean/lower median, MajorityJudgment with the plus tie-break, STAR. Near-tie separation and equal-rational '
+              'ties are theorems over all rationals. Unproved (oracle only): Baldwin, Oklahoma, Bucklin and Tideman with several seats; '
+              'MajorityJudgment with the default tie-break is scale DEPENDENT (open finding). Returned numeric types are monitored (no float).')
+LEVEL_NOTE = ('Trusted: Lean kernel + standard axioms; the models of C01/C02/C03/C05/C06/C09/C12/C13/C16/C17 tied to the code by correspondence '
+              '(re-run here on the scaled profiles); CPython int/Fraction exactness. Partial: the families listed as unproved are decided by the '
+              'oracle only; numeric types are a runtime fact; the score-family theorems carry the hypothesis ScaleFreeCfg.')
